@@ -8,8 +8,8 @@ from .. import specrun as X
 from .. import specgen as G
 
 LEVEL = "proof"
-N = {"quick": (12, 40), "thorough": (1500, 12000)}
-REPEATS = {"quick": 2, "thorough": 6}
+N = {"quick": (12, 40), "thorough": (120, 500)}
+REPEATS = {"quick": 2, "thorough": 4}
 
 
 def shuffled(doc, rng):
@@ -100,10 +100,10 @@ def run_cases(chk, binp, cases, pf_ok, pf):
     rng = random.Random(chk.seed + 1010)
     docs_only = [j["case"]["doc"] for j in J if "doc" in j["case"] and j["runs"].get("cont=true,strict=true", {}).get("outcome") == "ok"]
     seqs = []
-    for i in range(min(len(docs_only), 16 if chk.tier == "quick" else 600)):
+    for i in range(min(len(docs_only), 16 if chk.tier == "quick" else 100)):
         seqs.append({"id": i, "docs": [rng.choice(docs_only) for _ in range(rng.randint(2, 4))], "cont": rng.random() < 0.5})
     # the same loaded document validated again (fresh validators): the first validation must not change what the next one sees
-    for d in docs_only[:(40 if chk.tier == "quick" else 2000)]:
+    for d in docs_only[:(40 if chk.tier == "quick" else 300)]:
         seqs.append({"id": len(seqs), "docs": [d], "cont": rng.random() < 0.7, "same_doc": True, "again": 3})
     reuse_calls = 0
     if seqs:
@@ -168,7 +168,7 @@ def gen(chk):
     rng.shuffle(fixtures)
     cases += fixtures[:60 if chk.tier == "quick" else len(fixtures)] + [c for c in allc if "file" not in c]
     # documents built to have several independent offenders, where an early return would show
-    for i in range(8 if chk.tier == "quick" else 400):
+    for i in range(8 if chk.tier == "quick" else 60):
         defs = {}
         for k in range(rng.randint(2, 5)):
             defs["D%d" % k] = {"type": "object", "required": ["missing%d" % k, "other%d" % k], "properties": {"p": {"type": "string"}}}
@@ -179,7 +179,7 @@ def gen(chk):
     fams = [b for b in G.BREAKING if b[1].__name__ in ("edit_array_no_items", "edit_bad_pattern", "edit_two_bodies", "edit_body_and_form", "edit_bad_items_pattern",
                                                        "edit_schema_array_no_items", "edit_extra_path_param", "edit_dangling_ref", "edit_dup_param",
                                                        "edit_path_param_not_required")]
-    for i in range(len(fams) if chk.tier == "quick" else 500):
+    for i in range(len(fams) if chk.tier == "quick" else 60):
         rule, fn, _ = fams[i % len(fams)]
         d = G.SpecGen(rng).spec()
         while len(G._ops(d)) < 3:
@@ -190,7 +190,7 @@ def gen(chk):
                 k += 1
         cases.append({"doc": d, "origin": "%d offenders of the rule '%s' (%s)" % (k, rule, fn.__name__), "repeats": 8})
     # one offender of every rule, validated through the package-level defaults as well (global switch false, true, false)
-    for i in range(len(G.BREAKING) * (2 if chk.tier == "quick" else 40)):
+    for i in range(len(G.BREAKING) * (2 if chk.tier == "quick" else 8)):
         rule, fn, _ = G.BREAKING[i % len(G.BREAKING)]
         d = G.SpecGen(rng).spec()
         if fn(d, rng) is not None:
